@@ -273,6 +273,7 @@ def run(rep):
     rep.rule("R01.d", "delegating classes re-synchronise the inner BoxCox2 (right order) before every use")
     rep.rule("R01.e", "normalised chain of _backward == inverse of the normalised chain of _forward, branch by branch")
     rep.rule("R01.f", "public forward/backward/jacobian only cast the result of the same-named internal method")
+    rep.rule("R01.g", "transforms outside the chain vocabulary (LogSinh, Softmax): round-trip identities of the extracted formulas by computer algebra")
     rep.assume("exact real arithmetic: floating-point accuracy of the round trip is not decided")
     mod, classes, table = extract(rep)
     rep.unit(f"{file}: {len(CATALOGUE)} transform classes x {len(METHODS)} methods")
@@ -378,6 +379,27 @@ def run(rep):
             rep.check(ok, "R01.e", file, name, cons,
                       f"forward {F.show_chain(fc)}; inverse {F.show_chain(inv)}; backward {F.show_chain(bc)}", line=line)
     rep.floor("inverse pairings decided", npairs, 23)
+    # R01.g
+    from .. import symx, pq
+    nalg = 0
+    for name in OUTSIDE_CHAIN:
+        tc = classes[name]
+        line = tc.methods["_forward"].lineno
+        try:
+            clauses = symx.class_model((rep.repo, name), tc.methods, pq)
+        except Undecided as ex:
+            rep.undecided("R01.g", file, name, f"{name}: computer-algebra model", str(ex), line=line)
+            continue
+        for clause, ok, det in clauses:
+            if "jacobian" in clause.lower():
+                continue
+            nalg += 1
+            cons = f"{name}: {clause}"
+            if ok is None:
+                rep.undecided("R01.g", file, name, cons, det, line=line)
+            else:
+                rep.check(ok, "R01.g", file, name, cons, det, line=line)
+    rep.floor("computer-algebra round-trip clauses", nalg, 14)
     # R01.f public wrappers
     base = mod.klass("Transform")
     for pub in ("forward", "backward", "jacobian"):
